@@ -331,7 +331,35 @@ def run_watched(cmd, env, progress_file, total, stall, rss_limit):
 
 def execute(prop_cfg, ops, tag="run"):
     """ops: list of op lines (one flat list; sessions are separated by 'reset' ops).
-    returns list of dicts {op, I, M, S, F}"""
+    returns list of dicts {op, I, M, S, F}.
+    With prop_cfg["batch_sessions"] = n the sessions are run n at a time, each batch in a fresh harness (and driver)
+    process: a broker.Service that was closed is not fully released by the Go runtime (timers and goroutines of the
+    service keep its stores reachable), so thousands of sessions in one process would hit the watchdog's memory limit."""
+    n = prop_cfg.get("batch_sessions") or 0
+    if n > 0:
+        chunks, cur, count = [], [], 0
+        for o in ops:
+            if o.startswith("reset") and cur:
+                count += 1
+                if count >= n:
+                    chunks.append(cur)
+                    cur, count = [], 0
+            cur.append(o)
+        if cur:
+            chunks.append(cur)
+        if len(chunks) > 1:
+            import concurrent.futures
+            jobs = max(1, int(os.environ.get("VERIF_JOBS", "6") or 6))
+            with concurrent.futures.ThreadPoolExecutor(max_workers=jobs) as ex:
+                parts = list(ex.map(lambda ic: execute_one(prop_cfg, ic[1], "%s-b%d" % (tag, ic[0])), enumerate(chunks)))
+            res = []
+            for p in parts:
+                res += p
+            return res
+    return execute_one(prop_cfg, ops, tag)
+
+
+def execute_one(prop_cfg, ops, tag="run"):
     d = os.path.join(WORK, prop_cfg["id"])
     os.makedirs(d, exist_ok=True)
     opsf = os.path.join(d, "%s.%d.ops" % (tag, os.getpid()))
